@@ -320,12 +320,24 @@ impl<SP: StorageProvider, PS: PolicyStore> Transaction<SP, PS> {
         // Try to run command, or revert if failed.
         sink.begin();
         let checkpoint = perspective.checkpoint();
-        if let Err(e) = policy.call_rule(
-            command,
-            perspective,
-            sink,
-            CommandPlacement::OnGraphAtOrigin,
-        ) {
+        let mut result = policy
+            .call_rule(
+                command,
+                perspective,
+                sink,
+                CommandPlacement::OnGraphAtOrigin,
+            )
+            .map_err(ClientError::from);
+        if result.is_ok() {
+            // The command must extend the head of the perspective exactly (id
+            // and max cut). If it does not, what its rule wrote and emitted
+            // must not stay behind either.
+            result = perspective
+                .add_command(command)
+                .map(|_| ())
+                .map_err(ClientError::from);
+        }
+        if let Err(e) = result {
             perspective.revert(checkpoint)?;
             sink.rollback();
             if fresh {
@@ -335,9 +347,8 @@ impl<SP: StorageProvider, PS: PolicyStore> Transaction<SP, PS> {
                 self.phead = None;
                 self.heads.extend(self.pbase.drain(..));
             }
-            return Err(e.into());
+            return Err(e);
         }
-        perspective.add_command(command)?;
         sink.commit();
 
         self.phead = Some(command.id());
